@@ -232,6 +232,16 @@ class Built:
                     # the other way to the pre-task list: the list handed out by the pre_tasks property
                     o.pre_tasks.append(*[self.allobjs[i] for i in op["ids"]])
                     out.append("ok")
+                elif k == "inplace":
+                    # the list / dict held as a parameter value, modified in place through the parameter property
+                    cur = getattr(o, op["name"])
+                    if isinstance(cur, list):
+                        cur.append(cur[0] if cur else None)
+                    elif isinstance(cur, dict):
+                        cur["__inplace__"] = next(iter(cur.values()), None)
+                    else:
+                        raise AttributeError("not a container")
+                    out.append("ok")
                 elif k == "copydeps":
                     # copy_dependencies(other) sets the task mark of o (part of its identity) from other's
                     o.copy_dependencies(self.allobjs[op["other"]])
